@@ -26,7 +26,7 @@ SPEC = dict(
          'magnitude bucket of a x bucket of b; PID: operator, order, table kinds, number of active e sets, number of active ec sets, '
          'outcome) - NOT the number of evaluations.',
     exhaustive={'quick': None, 'thorough': None},
-    require=['pid_fuzzy-one-table-for-both-inputs', 'pid_fuzzy-scratch-block-set-before-the-rule-base', 'pid-scratch-every-start-offset-guards-intact', 'pid-scratch-every-start-offset-getter-and-layout', 'pid-scratch-every-start-offset-gains==aligned-twin', 'pid-scratch-used-up-to-its-last-real', 'pid_fuzzy-both-inputs-in-membership-tails', 'mf-range-extreme-parameters', 'bfuzz-macro-with-expression-argument', 'a_pid_fuzzy::set_kpid', 'a_pid_fuzzy::set_rule', 'a_pid_fuzzy::pos', 'w-fuzzy-gains-weighted-mean', 'w-mf-range', 'w-mf-pairs-complementary', 'mf-range', 'mf-core-one', 'mf-support-zero', 'mf-formula', 'mf-monotone', 'mf-continuity', 'mf-s+z=1', 'mf-lins+linz=1',
+    require=['pid-scratch-shrunk-guards-intact', 'pid-scratch-shrunk-in-place-and-set-again', 'pid_fuzzy-one-table-for-both-inputs', 'pid_fuzzy-scratch-block-set-before-the-rule-base', 'pid-scratch-every-start-offset-guards-intact', 'pid-scratch-every-start-offset-getter-and-layout', 'pid-scratch-every-start-offset-gains==aligned-twin', 'pid-scratch-used-up-to-its-last-real', 'pid_fuzzy-both-inputs-in-membership-tails', 'mf-range-extreme-parameters', 'bfuzz-macro-with-expression-argument', 'a_pid_fuzzy::set_kpid', 'a_pid_fuzzy::set_rule', 'a_pid_fuzzy::pos', 'w-fuzzy-gains-weighted-mean', 'w-mf-range', 'w-mf-pairs-complementary', 'mf-range', 'mf-core-one', 'mf-support-zero', 'mf-formula', 'mf-monotone', 'mf-continuity', 'mf-s+z=1', 'mf-lins+linz=1',
              'mf-dispatcher', 'op-commutative', 'op-formula', 'op-class-bound', 'op-monotone', 'op-boundary', 'op-inline==exported',
              'op-pid-selector', 'op-not', 'op-equ_', 'pid-bfuzz-layout', 'pid-opr-default', 'pid-partition-bound-2',
              'pid-gain-base-when-nothing-fires', 'pid-gain-finite', 'pid-gain-in-consequent-range', 'pid-gain-weighted-mean'],
